@@ -337,7 +337,7 @@ package chain
 //@   ensures [atomic] result1 != nil ==> len(m.txpool.txns) == preLen && len(m.txpool.v2txns) == preLen2
 //
 //@ func (*Manager).AddV2PoolTransactions props C14
-//@   requires m != nil
+//@   requires m != nil && m.store != nil
 //@   ghostvar preLen int
 //@   ghostvar preLen1 int
 //@   ghostvar idxRef ref
